@@ -204,7 +204,7 @@ func Child(c *run.Ctx, name string) {
 			if traces.MName[j] != sp.Name {
 				d = append(d, fmt.Sprintf("name %q≠%q", traces.MName[j], sp.Name))
 			}
-			if traces.MServiceName[j] != sp.Service {
+			if sp.Service != "" && traces.MServiceName[j] != sp.Service {
 				d = append(d, fmt.Sprintf("service %q≠%q", traces.MServiceName[j], sp.Service))
 			}
 			if len(d) > 0 {
@@ -277,7 +277,7 @@ func Child(c *run.Ctx, name string) {
 				if !bytes.Equal(resp.Span.ParentSpanId, sp.ParentID) {
 					d = append(d, fmt.Sprintf("parent %x≠%x", resp.Span.ParentSpanId, sp.ParentID))
 				}
-				if resp.ServiceName != sp.Service {
+				if sp.Service != "" && resp.ServiceName != sp.Service {
 					d = append(d, fmt.Sprintf("service %q≠%q", resp.ServiceName, sp.Service))
 				}
 				have := map[string]*common.AnyValue{}
